@@ -4,8 +4,8 @@
 
 static std::vector<Prop> props() {
     return {
-        Prop("hist_nested", run_history<KNested>, 1000, 10000, 100, 25, {1}, 2, 8),
-        Prop("hist_deflated", run_history<KDeflated>, 1000, 10000, 100, 25, {1}, 2, 8),
+        Prop("hist_nested", run_history<KNested>, 1000, 10000, 100, 12, {1}, 2, 8),
+        Prop("hist_deflated", run_history<KDeflated>, 1000, 10000, 100, 12, {1}, 2, 8),
     };
 }
 static std::vector<Enum> enums() { return {}; }
